@@ -437,6 +437,8 @@ theorem Ctl.stepClient {g : G} (h : Ctl g) {c : Client} (hc : c ∈ g.clients) (
     intro rev fb _
     split <;> exact h.finish ..
   · exact h
+  · intro _ _
+    exact ⟨fun x hx => h.cl x (List.mem_filter.mp hx).1, h.sl, h.rq, h.rp⟩
 
 theorem Ctl.stepSeq {g : G} (h : Ctl g) : Ctl (stepSeq g) := by
   unfold KB.stepSeq
@@ -464,7 +466,7 @@ theorem Ctl.stepRetryRead {g : G} (h : Ctl g) : Ctl (stepRetryRead g) := by
   · intros; exact h
   · intro w rest _ hq _
     exact ⟨h.cl, h.sl, fun x hx => h.rq x (by rw [hq]; exact List.mem_cons_of_mem _ hx), h.rp⟩
-  · intro w rest val _ hq _ _
+  · intro w rest val _ hq _ _ _
     have hw : w.rev ≤ g.dealt := h.rq w (by rw [hq]; exact List.mem_cons_self ..)
     have h' := h.deal
     refine ⟨h'.cl, h'.sl, h'.rq, ?_⟩
@@ -472,6 +474,7 @@ theorem Ctl.stepRetryRead {g : G} (h : Ctl g) : Ctl (stepRetryRead g) := by
     simp only [Option.some.injEq] at hp
     subst hp
     exact ⟨⟨Nat.succ_pos _, Nat.le_refl _⟩, by show w.rev < g.dealt + 1; omega⟩
+  · intros; exact h
 
 theorem Ctl.stepRetryCommit {g : G} (h : Ctl g) (f : Fault) : Ctl (stepRetryCommit g f) := by
   apply stepRetryCommit_cases
@@ -512,18 +515,19 @@ theorem Ctl.act {g : G} (h : Ctl g) (a : Action) : Ctl (act g a) := by
 /-! ### the allocator never goes back -/
 
 theorem dealtGe_closed (d : Nat) : Closed (fun v => d ≤ v.dealt) where
-  dealTo := fun h _ _ _ => Nat.le_succ_of_le h
+  dealTo := fun h _ _ _ _ => Nat.le_succ_of_le h
   move := fun h _ _ _ _ => h
   report := fun {v c w} h _ _ _ => by
     show d ≤ (v.push w).dealt
     unfold View.push; split <;> exact h
   ret := fun h _ _ _ => h
   consume := fun h _ _ => Nat.le_trans h (Nat.le_max_left _ _)
-  rdeal := fun h _ => Nat.le_succ_of_le h
+  rdeal := fun h _ _ => Nat.le_succ_of_le h
   rpush := fun {v w} h _ => by
     show d ≤ (v.push w).dealt
     unfold View.push; split <;> exact h
   spawn := fun h _ _ => h
+  drop := fun h _ _ => h
 
 theorem act_dealt_le (g : G) (a : Action) : g.dealt ≤ (act g a).dealt :=
   act_P (dealtGe_closed g.dealt) a (Nat.le_refl _)
@@ -632,6 +636,7 @@ theorem LagG.stepClient {g0 g : G} (hwf0 : KeyWF g0.store) (hctl : Ctl g) (hb : 
     split <;> exact hA.frame (by simp) (by simp) (by simp)
   · intros; split <;> exact h.frame rfl rfl rfl
   · exact h
+  · intros; exact h.frame rfl rfl rfl
 
 theorem LagG.stepRetryCommit {g0 g : G} (hwf0 : KeyWF g0.store) (hctl : Ctl g) (hb : g.dealt < 2 ^ 64)
     (h : LagG g0 g) (f : Fault) : LagG g0 (stepRetryCommit g f) := by
